@@ -80,5 +80,8 @@ def run(ctx):
                        'legacy snapshots without a state tree (backup-walk branch) are not generated']
     ctx.proof_phase(extra_targets=['Corr/Check_Deploy.vo'])
     witnesses(ctx)
+    # rollback-heavy histories of plain deploys (no filter, no adopt): several deploys, then rollbacks back, forward (redo) and sideways
+    ds.run_hist_stream(ctx, 10 if quick else 150, 0, props={'C06'}, weights={'deploy': 1}, stream='redo_hist', simple=True,
+                       kinds_seq=lambda rng: ['deploy'] * rng.randrange(2, 5) + ['rollback'] * rng.randrange(3, 6))
     ds.run_hist_stream(ctx, 16 if quick else 250, 6 if quick else 9, props={'C06'},
                        weights={'deploy': 5, 'rollback': 4, 'bootstrap': 1, 'restore': 1}, stream='rollback_hist')
